@@ -12,6 +12,9 @@
 
 #include <string.h>
 #include <stdlib.h>
+#include <limits.h>
+/* a visit function stops a traversal with "a non-zero value": any of them, which the traversal must hand back unchanged */
+static const int stopvals[12] = { -3, -2, -1, 11, 1, 2, 3, 256, 65536, -65536, INT_MIN, INT_MAX };
 
 enum {
     D_PUSH_FRONT = 1, D_PUSH_BACK, D_POP_FRONT, D_POP_BACK, D_INSERT, D_ERASE,
@@ -723,7 +726,7 @@ static void l_exec(const plan_t *p)
             int dir = (int)(o->a[2] & 1), r, expect_n, expect_r = 0, j;
             nvis = 0;
             vis_stop_at = (int)(o->a[3] % (uint64_t)(m->n + 2));   /* 0 = never */
-            vis_stop_val = (int)(o->a[4] % 7) - 3; if (vis_stop_val == 0) vis_stop_val = 5;
+            vis_stop_val = stopvals[(o->a[4] >> 8 ^ o->a[4]) % 12];
             vis_remove_pm = (unsigned)(o->a[5] % 1001);
             vis_remove_seed = o->a[6];
             vis_list = D;
@@ -881,7 +884,7 @@ static void l_exec(const plan_t *p)
             int r, expect_n, expect_r = 0, j;
             nvis = 0;
             vis_stop_at = (int)(o->a[3] % (uint64_t)(m->n + 2));
-            vis_stop_val = (int)(o->a[4] % 7) - 3; if (vis_stop_val == 0) vis_stop_val = 5;
+            vis_stop_val = stopvals[(o->a[4] >> 8 ^ o->a[4]) % 12];
             vis_remove_pm = 0; vis_list = NULL;
             TRY(r = cstl_slist_foreach(S, visit_cb, NULL)); check_noabort(m, 0);
             expect_n = m->n;
@@ -991,7 +994,7 @@ static void l_gen(prng_t *r, int mode, plan_t *p)
         o->a[3] = prng_below(r, 4);                     /* position bias: 1 = first/tail, 2 = last */
         if (kind == D_FOREACH || kind == S_FOREACH) {
             o->a[3] = prng_chance(r, 1, 2) ? 0 : prng_next(r) >> 8;     /* stop position */
-            o->a[4] = prng_below(r, 7);
+            o->a[4] = prng_below(r, 12);
             o->a[5] = (kind == D_FOREACH && prng_chance(r, 1, 3)) ? prng_below(r, 1001) : 0;
             o->a[6] = prng_next(r) >> 8;
         }
